@@ -586,6 +586,37 @@ func (c *predCtx) stmts(list []ast.Stmt, indent string) string {
 			c.locals[id.Name] = true
 			return indent + "let " + id.Name + " := " + v + "\n" + c.stmts(rest, indent)
 		}
+	case *ast.SwitchStmt:
+		// tagged switch whose clauses compare the tag with constants:
+		//   switch x { case A, B: return e1; default: return e2 }  ->  if (x == A || x == B) then e1 else e2
+		// a clause (or a missing default) that falls out of the switch continues with the rest
+		if s.Init != nil || s.Tag == nil {
+			die("pred %s: unsupported switch at %s", c.spec.NS, fset.Position(s.Pos()))
+		}
+		tag := c.expr(s.Tag)
+		var def []ast.Stmt
+		type arm struct {
+			cond string
+			body []ast.Stmt
+		}
+		var arms []arm
+		for _, cl := range s.Body.List {
+			cc := cl.(*ast.CaseClause)
+			if cc.List == nil {
+				def = cc.Body
+				continue
+			}
+			var alts []string
+			for _, v := range cc.List {
+				alts = append(alts, "("+tag+" == "+c.expr(v)+")")
+			}
+			arms = append(arms, arm{strings.Join(alts, " || "), cc.Body})
+		}
+		res := c.block(def, rest, indent+"  ")
+		for i := len(arms) - 1; i >= 0; i-- {
+			res = indent + "if " + arms[i].cond + " then\n" + c.block(arms[i].body, rest, indent+"  ") + "\n" + indent + "else\n" + res
+		}
+		return res
 	case *ast.RangeStmt:
 		// for _, p := range xs { if strings.HasPrefix(k, p) { return true } }  ->  if xs.any (hasPrefix k) then true else ...
 		if len(s.Body.List) == 1 {
